@@ -72,7 +72,11 @@ def execute(P, cases, profile, exes):
         impl = P.custom_impl(cases, profile)
     else:
         impl = core.run_sharded(exes["impl_" + profile], cases, tag=P.id + ".impl", shards=P.shards)
-    model = core.run_sharded(exes["model"], cases, extra_args=P.model_args(profile), tag=P.id + ".model", shards=P.shards)
+    if "model" in exes:
+        model = core.run_sharded(exes["model"], cases, extra_args=P.model_args(profile), tag=P.id + ".model", shards=P.shards)
+    else:
+        # the model could not be rebuilt from the current source: search the implementation alone
+        model = ["?model-unavailable"] * len(cases)
     P._raw_impl = dict(zip(cases, impl))
     return [P.project(l) for l in impl], [P.project(l) for l in model]
 
@@ -161,7 +165,8 @@ def run_property(P, tier, seed, replay=None):
         stream_counts[s] = stream_counts.get(s, 0) + 1
 
     obligations += 1     # the correspondence
-    can_run = "model" in exes and all(("impl_" + p) in exes for p in P.profiles)
+    can_run = all(("impl_" + p) in exes for p in P.profiles)
+    have_model = "model" in exes
     if can_run and cases:
         all_cases = cases
         for prof in P.profiles:
@@ -182,7 +187,7 @@ def run_property(P, tier, seed, replay=None):
                         known_hits.setdefault(cls, (c, why))
                     else:
                         violations.append((c, why, a, b, prof))
-                elif a != b:
+                elif have_model and a != b:
                     corr_diffs.append((c, a, b, prof))
                 if P.nontrivial(c, a):
                     nontrivial.add(c)
@@ -191,7 +196,7 @@ def run_property(P, tier, seed, replay=None):
                 step = max(1, len(cases) // 5)
                 samples = [{"case": cases[i], "impl": impl[i], "model": model[i]} for i in range(0, len(cases), step)][:6]
         cases = all_cases
-        if not corr_diffs and not violations:
+        if have_model and not corr_diffs and not violations:
             discharged += 1
     elif not cases:
         discharged += 1
@@ -223,7 +228,7 @@ def run_property(P, tier, seed, replay=None):
         # every generated case, corpus first) found no input on which the property itself fails
         payload = {"kind": "obligation", "seed": seed,
                    "theorem_or_correspondence": [],
-                   "searched": "%d cases (streams %s) against the property oracle: no failing input" % (len(cases), stream_counts)}
+                   "searched": ("%d cases (streams %s) run on the implementation against the property oracle: no failing input" % (evaluations, stream_counts)) if can_run else "nothing could be run (build failures)"}
         if corr_diffs:
             c, a, b, prof = min(corr_diffs, key=lambda v: len(v[0]))
             try:
